@@ -279,7 +279,14 @@ def rule_stale_residue(ctx):
                 if is_callee(ctx, sc, roles.get_out) or (sc.name in ('is_some', 'is_none') and any(is_callee(ctx, x, roles.get_out) for x in ancestors(b, b.orig_operand(sc.args[0])).values())):
                     owner_checked = True
         ok = purged or owner_checked
-        R.ob('U2-stale-residue', '%s#%s' % (b.path, kind), ok,
+        side = ''
+        if kind == 'recorded-writer':
+            hr = getattr(ctx, 'ev_hr', None)
+            side = '/reading-side' if (hr is not None and hr.match(b, c.bb) is not None) else '/writing-side'
+        elif kind == 'recorded-readers':
+            side = '/writing-side'
+        # keyed by the construct (query kind and side), not by function names: a renamed helper is the same finding
+        R.ob('U2-stale-residue', kind + side, ok,
              'edges left by aborted executions cannot make this query abort a later build' if ok else
              'the %s query consults edges recorded by executions that were later aborted (their task has no output and has not been re-executed yet); nothing purges them at build entry, '
              'so a later session in which the violation no longer exists can abort again' % kind, ctx.where(b, c.bb), props=P)
